@@ -72,9 +72,6 @@ def Scen.oracle (sc : Scen) : Oracle := fun sid k =>
   | some row => row.getD k (row.getD (row.size - 1) 0)
   | none => 0
 
-def schedOf (orc : Oracle) (r : Rng) (inst : Instance) : Sched :=
-  inst.jobs.map fun j => j.ops.map fun o => (o.machine, o.dur.cur orc r)
-
 def Scen.rewardStatic (sc : Scen) (r : Rng) : Except Err RewardStatic := do
   let inst := sc.instance
   let sched := schedOf sc.oracle r inst
